@@ -46,7 +46,7 @@ theorem R2_duplicate_is_unknown (s : State) (iid k : Nat) (b b' : Bytes) (h : Ac
 /-- R2: replies that name nothing change nothing — an id below the request bit, an id the socket never
     put on the wire, an id that is no longer (or not) in the map -/
 theorem R2_unknown_changes_nothing (s : State) (v : Nat) (b : Bytes)
-    (h : v < idMin ∨ s.alias.length ≤ v - idMin ∨ ∃ iid, resolveWire s v = some iid ∧ s.idmap iid = none) :
+    (h : v < idMin ∨ s.alias.length ≤ (v - idMin) % relBase ∨ ∃ iid, resolveWire s v = some iid ∧ s.idmap iid = none) :
     recvCb s (resolveWire s v) b = (s, []) := by
   rcases h with h | h | ⟨iid, h1, h2⟩
   · rw [resolveWire_low s v h]; exact recvCb_none s b
